@@ -1068,6 +1068,12 @@ def post_report(c, rep):
                 if o["status"] == "refuted":
                     o["status"] = "unknown"
                     o["reason"] = f"{rep.exc_any_sites} unmodelled call(s) were over-approximated in this function: not a definite refutation; " + (o.get("reason") or "")
+    if c.target in (f"{MHTML}::_find_html_part", f"{MHTML}::_decode_content") and getattr(rep, "exc_any_sites", 0):
+        # round 7: definite only when every call on the way had a model (an unmodelled call is over-approximated: any value, may raise)
+        for o in rep.obligations:
+            if o["status"] == "refuted":
+                o["status"] = "unknown"
+                o["reason"] = f"{rep.exc_any_sites} unmodelled call(s) were over-approximated in this function: not a definite refutation; " + (o.get("reason") or "")
     if c.target in _G.TARGETS:
         for o in rep.obligations:
             if o["status"] == "refuted":
@@ -1271,7 +1277,20 @@ TRUSTED = ["html.parser.HTMLParser: feed(text) calls the overridden handlers wit
            "inherited handle_comment/handle_decl/handle_pi/unknown_decl are no-ops",
            "tree walker (_HtmlTextExtractor) emits every stored text/tail and nothing else (C02's obligation, not re-proved here)"]
 ASSUMED_MODELS = ["str.lower (uninterpreted function, shared by spec and code)", "str.split / str.join / str.strip (total, opaque result)",
-                  "html.parser.HTMLParser.__init__ (no effect on subclass fields)", "attrs: list of (str, Optional[str]) pairs"]
+                  "html.parser.HTMLParser.__init__ (no effect on subclass fields)", "attrs: list of (str, Optional[str]) pairs",
+                  "email.message.Message (round 7): get_content_type / is_multipart / walk / get_payload(decode=False) / get(name, '') are total "
+                  "functions of the message object; walk() is a finite sequence",
+                  "quopri.decodestring / base64.b64decode (partial functions of the bytes: value or exception), str.encode('utf-8', errors='replace') "
+                  "(total), <whitespace regex>.sub(b'', x) (function of x; the pattern is checked to match whitespace only), "
+                  "bytes slicing / lower / `in` (total, opaque)"]
+# round 7: targets registered twice -- VERIFIED on the real body, and as the abbreviated view their callers use.  Reported as assumed
+# only while an obligation of the verified registration is open (pyvc/check.py, key `call_site_views_of_verified_contracts`).
+CALL_SITE_VIEWS = {
+    f"{MHTML}::_find_html_part": "view of _extract_from_mhtml: `mime_has_html_part(msg)` / `mime_html_part(msg)` -- the verified clause makes the result a "
+                                 "function of the MIME view of msg (first text/html part in walk order, decoded completely; else the sniffed single body; else None)",
+    f"{MHTML}::_decode_content": "view of _find_html_part: `mime_decoded_content(part)`, total -- abbreviates the verified case analysis "
+                                 "(payload kind x transfer encoding; the raises obligation of the verified registration is discharged)",
+}
 ASSUMPTIONS = ["PY-STR", "PY-EXC", "PY-ALIAS: last_closed is None, the root, or a node distinct from the materialised stack top",
                "TREE-FINITE", "lists of symbolic length are modelled as abstract prefix + appended tail; only append/pop/[-1]/len/truth are in the subset",
                "call-site obligations are syntactic shape checks (back end 'dataflow', UNDECIDED when the shape is not recognised)"]
